@@ -22,11 +22,23 @@ Wave 2 — the rest of the server inside the machine:
   restores it lazily (`revive`: a NEW factory product, the saved session, the session's settings re-applied and
   its steps replayed — `bptk._set_state`); `stop` deletes the externalised state as well.
 * `begin-session` carries settings too (`beginSession (some v)`), as `run-step` does.
+
+Wave 3 — requests to ids that are not in memory.  An instance request (begin-session, run-step, session-results,
+end-session, keep-alive: the handlers that call `_ensure_instance_exists`) addressed to an id that is stopped, timed
+out or never existed touches no other instance: `Cfg.restoreOnlyAddressed`.  The defective mechanism (`preRestore`,
+`restoreAll`) rebuilds every instance of the external store, also those alive in memory, whose un-externalised
+state (a session ended or begun since their last run-step) is thereby lost.  A request to an id that never
+existed is answered `invalid` (`stop`: `deleted`).
 -/
 namespace Bptk.C16
 
 structure Cfg where
   instancesShareNothing : Bool
+  /-- `_ensure_instance_exists` for an id that is not in memory loads exactly the addressed instance from the
+  external store (true; `load_instance(uuid)`), or rebuilds EVERY instance found in the store (false;
+  `load_state()` + `reconstruct_instance` for each): instances alive in memory then lose their in-memory session
+  and get the last externalised one. -/
+  restoreOnlyAddressed : Bool
 deriving DecidableEq, Repr
 
 inductive Req where
@@ -162,10 +174,43 @@ def Server.init (k : Nat) : Server := Server.initAd k false
 
 def updFn {α : Type} (f : Nat → α) (k : Nat) (v : α) : Nat → α := fun x => if x = k then v else f x
 
-/-- a request naming an id that does not exist: only `create` does something -/
+/-- a request naming an id that never existed: `create` makes it; the instance handlers answer "expecting a valid
+instance id", stop-instance answers "Instance deleted." all the same; a timeout of nothing is nothing. -/
 def stepNone (s : Server) (i : Nat) : Req → Server × Option Resp
   | .create => ({ s with insts := updFn s.insts i (some Inst.fresh) }, some .created)
-  | _ => (s, none)
+  | .expire => (s, none)
+  | .stop => (s, some .deleted)
+  | _ => (s, some .invalid)
+
+/-- the handlers that call `_ensure_instance_exists` -/
+def Req.ensures : Req → Bool
+  | .beginSession _ => true
+  | .runStep _ => true
+  | .results => true
+  | .endSession => true
+  | .keepAlive => true
+  | _ => false
+
+/-- `reconstruct_instance` from the externalised state, if the store holds one for the id -/
+def rebuild (c : Cfg) (g : Int) (x : Inst) : Inst :=
+  match x.saved with
+  | some s => { x with alive := true, knob := (applySetting c g 1 s.sknob).2.1, sess := some s }
+  | none => x
+
+def restoreAll (c : Cfg) (g : Int) (f : Nat → Option Inst) : Nat → Option Inst := fun j => (f j).map (rebuild c g)
+
+/-- the id is not in memory: never existed, stopped or timed out -/
+def absent (f : Nat → Option Inst) (i : Nat) : Bool :=
+  match f i with
+  | none => true
+  | some x => !x.alive
+
+/-- what `_ensure_instance_exists` does to the OTHER instances before the addressed one is looked at: nothing
+(`restoreOnlyAddressed`), or — adapter configured, addressed id not in memory — every instance of the store is rebuilt. -/
+def preRestore (c : Cfg) (s : Server) (op : Nat × Req) : Server :=
+  if !c.restoreOnlyAddressed && s.ad && op.2.ensures && absent s.insts op.1 then
+    { s with insts := restoreAll c s.g s.insts }
+  else s
 
 /-- a request; instance requests are addressed to instance `op.1`, server-level requests ignore it. -/
 def step (c : Cfg) (s : Server) (op : Nat × Req) : Server × Option Resp :=
@@ -173,6 +218,7 @@ def step (c : Cfg) (s : Server) (op : Nat × Req) : Server × Option Resp :=
     let r := stepOwn c s.g s.own op.2
     ({ s with g := r.1, own := r.2.1 }, some r.2.2)
   else
+    let s := preRestore c s op
     match s.insts op.1 with
     | none => stepNone s op.1 op.2
     | some x =>
